@@ -1,6 +1,7 @@
 -- FAMILIES: ntt=TF.Drv.Ntt.ntt
 import TF.Drv.Proto
 import TF.Model.Ntt
+import TF.Gen.NttLoops
 import TF.Spec.Field
 /-! driver handler for the family `ntt` (C06): field elements travel as canonical values -/
 namespace TF.Drv.Ntt
@@ -74,11 +75,48 @@ def okSum : Option (List Nat) → String
   | some l => "ok:" ++ fmtList l
   | none => "panic"
 
+/-! The loops of `ntt.rs` are **also regenerated from source** on every run (`TF/Gen/NttLoops.lean`, written by
+    tools/rs2lean_ext.py; the field operations are a parameter).  For the explicit-vector ops the handler evaluates the
+    regenerated definition next to the hand model; a difference is printed instead of the value. -/
+
+/-- value of the regenerated definition + its `_ok` twin -> "value or panic" (`none` of the value = out of fuel) -/
+def genRes {β : Type} (v : Option (List β)) (ok : Bool) : Option (Option (Array β)) :=
+  v.map fun l => if ok then some l.toArray else none
+
+/-- `none`: no regenerated counterpart for this function -/
+def genRun {β : Type} (ops : Ops Nat β) (fn : String) (x : Array β) : Option (Option (Option (Array β))) :=
+  let l := x.toList
+  match fn with
+  | "ntt" =>
+    -- the regenerated part of `ntt` is `ntt_unchecked`; the wrapper (length checks, root lookup) is the hand model's
+    if 2^32 ≤ x.size || !(x.size == 0 || TF.isPow2 x.size) then none else
+    match bRoot x.size with
+    | none => none
+    | some omega =>
+      let log := if x.size == 0 then 0 else Nat.log2 x.size
+      some (genRes (TF.Gen.Loops.ntt_unchecked ops l omega log) (TF.Gen.Loops.ntt_unchecked_ok ops l omega log))
+  | "intt_noswap" => some (genRes (TF.Gen.Loops.intt_noswap ops bRoot l) (TF.Gen.Loops.intt_noswap_ok ops bRoot l))
+  | "bitrev" => some (genRes (TF.Gen.Loops.ntt_bitreverse_order ops l) (TF.Gen.Loops.ntt_bitreverse_order_ok ops l))
+  | _ => none
+
+def genAgrees {β : Type} [BEq β] (ops : Ops Nat β) (fn : String) (x : Array β) (model : Option (Array β)) : Bool :=
+  -- the regenerated definitions work on `List`s (`getD`/`set` are linear): side by side up to 512 elements
+  if x.size > 512 then true else
+  match genRun ops fn x with
+  | none => true
+  | some none => false          -- out of fuel
+  | some (some g) => g == model
+
 def ntt : Handler
   | "root", [.sym "b", .nat n] => some ("ok:" ++ fmtOptNat (primitiveRoot n))
   | "root", [.sym "x", .nat n] =>
       some (match primitiveRoot n with | some r => "ok:some:" ++ fmtTriple (r, 0, 0) | none => "ok:none")
-  | "bitreverse", [.nat n, .nat l] => some s!"ok:{bitreverse n l}"
+  | "bitreverse", [.nat n, .nat l] =>
+      -- the op is `bitreverse_usize`; the private `u32` twin `bitreverse` is compared on its own domain as well
+      some (if TF.Gen.Loops.ntt_bitreverse_usize_ok n l && TF.Gen.Loops.ntt_bitreverse_usize n l != bitreverse n l
+        then s!"GEN-MISMATCH gen={TF.Gen.Loops.ntt_bitreverse_usize n l} model={bitreverse n l}"
+        else if n < 4294967296 && l ≤ 32 && TF.Gen.Loops.ntt_bitreverse n l != bitreverse n l
+        then s!"GEN-MISMATCH (u32) gen={TF.Gen.Loops.ntt_bitreverse n l} model={bitreverse n l}" else s!"ok:{bitreverse n l}")
   | "gen", [.sym fn, .sym "b", .nat kind, .nat seed, .nat n] => do
       let r ← runB fn (Array.ofFn (n := n) fun i => genB kind seed n i.val)
       pure (okSum (r.map (checksumB seed)))
@@ -88,11 +126,11 @@ def ntt : Handler
   | fn, [.sym "b", xs] => do
       let l ← xs.natList?
       let r ← runB fn (l.map (· % P)).toArray
-      pure (okB r)
+      pure (if genAgrees bOps fn (l.map (· % P)).toArray r then okB r else "GEN-MISMATCH " ++ fn ++ " model=" ++ okB r)
   | fn, [.sym "x", xs] => do
       let l ← xs.tripleList?
       let r ← runX fn l.toArray
-      pure (okX r)
+      pure (if genAgrees xOps fn l.toArray r then okX r else "GEN-MISMATCH " ++ fn ++ " model=" ++ okX r)
   | _, _ => none
 
 end TF.Drv.Ntt
